@@ -12,6 +12,7 @@ Reading guide (definitions in Wsdl/Defs.lean, Wsdl/Mapper.lean, Wsdl/Client.lean
 -/
 import XsdataModel.Proofs.Wsdl
 import XsdataModel.Proofs.WsdlMapper
+import XsdataModel.Proofs.WsdlTotal
 
 namespace Props.C17
 open Py Xs.Wsdl
@@ -443,6 +444,29 @@ theorem fault_only_response_fits_partial (d : Definitions) (bo : BOperation) (po
           exact absurd (hn ▸ hb e hee) hne
 
 example : ∀ e ∈ [Witness.body], titleA (localName e.qname) = ws!"Body" := by decide
+
+/-! ## Generation succeeds -/
+
+/-- **generation_succeeds**: for every definitions record of the supported fragment
+(`wfDefinitions`, a decidable check: references resolve, directions of binding and
+port type operations agree, parts name an element or type, outputs have a
+`soap:body`) the mapper returns classes — none of `CodegenError`, `RuntimeError`
+(StopIteration), `AttributeError`, `ValueError` can occur. -/
+theorem generation_succeeds (d : Definitions) (h : wfDefinitions d = true) :
+    ∃ cs, mapDefinitions d = .ok cs :=
+  mapDefinitions_ok d h
+
+namespace Witness
+def soapBinding : Ext := ⟨ws!"{http://schemas.xmlsoap.org/wsdl/soap/}binding",
+  [(ws!"transport", ws!"http://schemas.xmlsoap.org/soap/http"), (ws!"style", ws!"rpc")]⟩
+def address : Ext := ⟨ws!"{http://schemas.xmlsoap.org/wsdl/soap/}address", [(ws!"location", ws!"http://localhost/svc")]⟩
+def full : Definitions :=
+  ⟨some ws!"urn:t", [msg, hdr], [⟨ws!"Pt", [po]⟩],
+   [⟨ws!"Bind", ws!"tns:Pt", [soapBinding], [bo [header, body]]⟩],
+   [⟨[⟨ws!"Port", ws!"tns:Bind", [address]⟩]⟩]⟩
+end Witness
+
+example : wfDefinitions Witness.full = true := by decide +kernel
 
 /-! ## Client -/
 
